@@ -32,6 +32,7 @@ package simplify
 // with both endpoints.
 //@ func dpWorker(ls, threshold, mask)
 //@   floats ieee
+//@   opt opaque=segDist2
 //@   ovf assume
 //@   requires len(ls) >= 2 && len(mask) == len(ls)
 //@   requires mask[0] == 1 && mask[len(mask)-1] == 1
